@@ -209,7 +209,8 @@ def main():
                     small = shrink_monitor(comp, spec, iexe, c, mh[0])
                     path = replay_path(pid, seed, saved)
                     sil = core.canon(run_single(iexe, small))
-                    write_replay(path, ['VIOLATION of %s on the implementation (monitor, independent of the model)' % pid] + mh,
+                    mh2 = run_monitors(comp, spec, small, sil) or mh
+                    write_replay(path, ['VIOLATION of %s on the implementation (monitor, independent of the model)' % pid] + mh2,
                                  small, comp.NAME, None, sil)
                     violations.append((mh[0], path))
                     saved += 1
